@@ -263,6 +263,12 @@ def bean_layer(ctx):
             type_oracle(ctx, conn, 'SELECT account, %s AS x FROM #postings GROUP BY account' % expr, 'aggregate-of-nulls:%s' % expr)
             type_oracle(ctx, conn, 'SELECT %s AS x FROM #postings WHERE cost_number IS NULL GROUP BY account' % expr,
                         'aggregate-of-nulls:%s' % expr)
+        # a grouping key referred to twice (alias and expression, name and position): every column keeps its own values
+        for q in ('SELECT year(date) AS y, account, sum(number) AS s FROM #postings GROUP BY y, year(date), account',
+                  'SELECT account, number, count(*) AS n FROM #postings GROUP BY 1, 1, 2',
+                  'SELECT account, date, count(*) AS n FROM #postings GROUP BY account, 1, date, 2',
+                  'SELECT date, account, currency, count(*) AS n FROM #postings GROUP BY 2, account, 1, 3'):
+            type_oracle(ctx, conn, q, 'repeated-grouping-key')
         # structured attributes
         for sname, attrs in facts['structures'].items():
             base = {'position': ('position', 'postings'), 'cost': ('position.cost', 'postings'), 'amount': ('price', 'postings'),
